@@ -316,6 +316,26 @@ Lemma null_moves_from_edge g ls ts :
   step g DEdge (SOutNull ls) ts = step g DEdge (SOut ls) ts /\ step g DEdge (SInNull ls) ts = step g DEdge (SIn ls) ts.
 Proof. split; reflexivity. Qed.
 
+(* unwind: one row per item of the list the path leads to (one row when it leads to no non-empty list); every row keeps the
+   traveler's marks and the element's id, label and endpoints -- only the data under the path differs *)
+Theorem unwind_shape f t c : t_cur t = Some c ->
+  List.length (unwind_of f t) = match look t f with Some (JList (x :: r)) => S (List.length r) | _ => 1 end /\
+  Forall (fun t' => t_marks t' = t_marks t /\
+                    exists c', t_cur t' = Some c' /\ e_gid c' = e_gid c /\ e_label c' = e_label c /\ e_from c' = e_from c /\ e_to c' = e_to c)
+         (unwind_of f t).
+Proof.
+  intros Hc. unfold unwind_of. rewrite Hc.
+  assert (forall v, (fun t' => t_marks t' = t_marks t /\
+            exists c', t_cur t' = Some c' /\ e_gid c' = e_gid c /\ e_label c' = e_label c /\ e_from c' = e_from c /\ e_to c' = e_to c)
+            (unwind_set t c (unwind_key f) v)) as Hrow.
+  { intros v. unfold unwind_set, add_current. cbn [t_marks t_cur]. split; [reflexivity|].
+    destruct (unwind_key f); eexists; split; try reflexivity; repeat split; reflexivity. }
+  destruct (look t f) as [[| | | | [|x r] |]|]; cbn [List.length map];
+    try (split; [reflexivity | constructor; [apply Hrow | constructor]]).
+  split; [now rewrite map_length|].
+  constructor; [apply Hrow|]. apply Forall_forall. intros t' Hin. apply in_map_iff in Hin as [v [<- _]]. apply Hrow.
+Qed.
+
 (* ---------- 3. order independence: row-wise steps and count map permuted inputs to permuted outputs ---------- *)
 Lemma flat_map_perm {X Y} (f : X -> list Y) a b : Permutation a b -> Permutation (flat_map f a) (flat_map f b).
 Proof. induction 1; simpl; auto.
